@@ -906,7 +906,7 @@ def _unwrap(v):
         if v[0] == "call" and len(v[2]) == 1 and v[1][0] == "global":
             wraps.append(v[1][1])
             v = v[2][0]
-        elif v[0] == "phi":
+        elif v[0] in ("phi", "ifexp"):
             # UCLCHEM freeze window: the file value is the else arm
             v = v[3]
         else:
@@ -1374,6 +1374,11 @@ def _r6(ctx, rm, pkg):
     fl = Flow(fn, UCF)
     st = [f for f in fl.facts if f.kind == "attrstore" and f.target == "reaction_type" and f.extra.get("obj") == SELF]
     v = simp(st[0].value) if st else None
+    if len(st) == 2 and v[0] == "sub" and v[2][0] != "slice" and any(g == ("except", "KeyError") and pol for g, pol in st[1].guards) \
+            and [g_ for g_ in st[1].guards if g_[0] != ("except", "KeyError")] == list(st[0].guards):
+        # `try: t = D[k]` / `except KeyError: t = d`  is  `t = D.get(k, d)`
+        v = ("meth", v[1], "get", (v[2], simp(st[1].value)), ())
+        st = st[:1]
     tab = v[1] if v is not None and v[0] == "meth" and v[2] == "get" and len(v[3]) == 2 and not v[4] else None
     if len(st) != 1 or tab != ("attr", SELF, "reactant2type"):
         ctx.unrec("R6", "UCLCHEM:default type", (UCF, fn.lineno), "the reaction type is not looked up as self.reactant2type.get(<marker token>, <default>)")
